@@ -89,9 +89,11 @@ def fieldStr (o : List (String × JVal)) (f : JVal) : String :=
   | .str s => pyStrip (pyStr ((lookup s o).getD .null))
   | _ => pyStrip (pyStr .null)
 
+def keySep : String := "$"
+
 /-- `_obj_to_key(obj, fields)`: `"$".join(...)` -/
 def objKey (fields : List JVal) (o : List (String × JVal)) : String :=
-  "$".intercalate (fields.map (fieldStr o))
+  keySep.intercalate (fields.map (fieldStr o))
 
 /-- key of a member of a map-directed list (members are objects where this is used) -/
 def memberKey (fields : List JVal) : JVal → String
@@ -137,17 +139,14 @@ inductive Mode where
   | keyed (fields : List JVal) (ts as : List JVal)
 
 def modeOf (sk : List String) (mk : List (String × List JVal)) (k : String) (v w : JVal) : Mode :=
-  match fieldsFor k mk with
-  | some fs =>
-    match v, w with
-    | .arr ts, .arr as => if allObj ts && allObj as then .keyed fs ts as else .plain
-    | _, _ => .plain
-  | none =>
-    if sk.contains k then
-      match v, w with
-      | .arr ts, .arr as => .set ts as
-      | _, _ => .plain
-    else .plain
+  match v, w with
+  | .arr ts, .arr as =>
+    match fieldsFor k mk with
+    | some fs =>
+      if allObj ts && allObj as then .keyed fs ts as
+      else if sk.contains k then .set ts as else .plain
+    | none => if sk.contains k then .set ts as else .plain
+  | _, _ => .plain
 
 /-! ## sets -/
 
@@ -215,19 +214,17 @@ def dictFwd (sk : List String) (mk : List (String × List JVal))
        | some w =>
          match v with
          | .arr ts =>
-           (match fieldsFor k mk with
-            | some fs =>
-              (match w with
-               | .arr as =>
+           (match w with
+            | .arr as =>
+              (match fieldsFor k mk with
+               | some fs =>
                  if allObj ts && allObj as then keyedFwd fs ts as && keyedBack fs ts as
+                 else if sk.contains k then setMatch ts as
                  else ts.length == as.length && listMatch ts as
-               | _ => false)
-            | none =>
-              (match w with
-               | .arr as =>
+               | none =>
                  if sk.contains k then setMatch ts as
-                 else ts.length == as.length && listMatch ts as
-               | _ => false))
+                 else ts.length == as.length && listMatch ts as)
+            | _ => false)
          | v => exactMatch v w)
     && dictFwd sk mk rest a
 termination_by structural t0
